@@ -3,7 +3,7 @@ compute-framework object (compute_framework.py) and WorkerManager.join_all (work
 from __future__ import annotations
 
 from harness.extract import REPO
-from harness.pytrans import FnSpec, ModuleSpec, ModuleTranslator, Opaque, loop_body_of, while_test_of
+from harness.pytrans import FnSpec, ModuleSpec, ModuleTranslator, Opaque, loop_body_of, nth_try_of, while_test_of
 
 SETS4 = {"required_uuids": "set", "step_uuid": "set", "finished_steps": "set", "currently_running_steps": "set"}
 
@@ -178,10 +178,44 @@ def sync_execute_spec() -> ModuleSpec:
     )
 
 
+def mp_worker_spec() -> ModuleSpec:
+    objs = {"command": "obj", "cfw": "obj", "location": "obj", "data": "obj", "result_queue": "obj"}
+    extra = [("dataIsStr", "Bool"), ("isFG", "Bool"), ("hasRequested", "Bool"), ("locationIsNone", "Bool")]
+    return ModuleSpec(
+        path="mloda/core/runtime/worker/multiprocessing_worker.py",
+        cls=None,
+        functions=[
+            FnSpec("_handle_command_result", objs, lean_name="handleCommandResult", extra_params=extra),
+            FnSpec(
+                "worker",
+                {},
+                lean_name="workerExecuteBlock",
+                slicer=nth_try_of(1),
+                live_in={"command": "obj", "cfw_register": "obj", "cfw": "obj", "data": "obj", "from_cfw": "obj", "location": "obj", "result_queue": "obj", "command_queue": "obj"},
+                continue_is_return=True,
+                extra_params=extra,
+                doc="the `try: _execute_command ... except Exception` block of the worker's command loop",
+            ),
+        ],
+        isinstance_map={("data", "str"): "dataIsStr", ("command", "FeatureGroupStep"): "isFG"},
+        getters={"command.features.get_initial_requested_features": ("hasRequested", "bool")},
+        expr_map={**WORKER_STR_EXPR, "location is None": ("locationIsNone", "bool"), "str(command.uuid)": ("()", "obj")},
+        opaque={
+            "cfw.upload_finished_data": Opaque("upload_finished_data", may_raise="uploadRaises"),
+            "result_queue.put": Opaque("put_result"),
+            "_execute_command": Opaque("execute_command", returns="obj", may_raise="executeRaises"),
+            "cfw_register.set_error": Opaque("set_error"),
+            "_handle_stop_command": Opaque("stop_command"),
+        },
+        ignore_calls=["logging.error"],
+    )
+
+
 def gen_workers() -> str:
     a = ModuleTranslator(REPO, thread_worker_spec()).run("Gen.ThreadWorker")
     b = ModuleTranslator(REPO, sync_execute_spec()).run("Gen.SyncExecute")
-    return a + "\n" + b.replace("import MlodaVerif.Model.PyRt\n", "")
+    c = ModuleTranslator(REPO, mp_worker_spec()).run("Gen.MpWorker")
+    return a + "\n" + b.replace("import MlodaVerif.Model.PyRt\n", "") + "\n" + c.replace("import MlodaVerif.Model.PyRt\n", "")
 
 
 GENERATORS = {"Workers": gen_workers, "JoinAll": gen_join_all, "OptionsAcc": gen_options, "RunLoop": gen_run_loop, "Tracker": gen_tracker}
